@@ -1,4 +1,6 @@
 import Scfg
+import Scfg.Model.Edit
+import Scfg.Model.EditSpec
 /-!
 # Line-protocol driver (glue)
 
@@ -16,6 +18,26 @@ structure DState where
   gtop : Name := ""
   h : Hier := []
   htop : Name := ""
+  /-- model state for `OP` requests -/
+  m : Model.St := { H := [], ng := [] }
+
+def parseNg (s : String) : Except String Model.NameGen :=
+  if s == "-" || s.isEmpty then pure [] else
+  (s.splitOn ",").mapM fun p => match parseKV p with
+    | some (k, v) => match v.toNat? with
+      | some i => pure (k, i)
+      | none => throw s!"bad ng {p}"
+    | none => throw s!"bad ng {p}"
+
+def printNg (ng : Model.NameGen) : String :=
+  if ng.isEmpty then "-" else commaJoin (ng.map fun p => s!"{p.1}={p.2}")
+
+def lst (s : String) : List String := if s == "-" then [] else splitList s
+
+def reply (st : DState) (r : Model.M Model.St) (extra : String := "") : DState × String :=
+  match r with
+  | .ok m => ({ st with m := m }, s!"ok {printHier m.H} {printNg m.ng}{extra}")
+  | .error a => (st, s!"abort {a.toString}")
 
 def bit (b : Bool) : String := if b then "1" else "0"
 
@@ -60,6 +82,25 @@ def step (st : DState) (line : String) : DState × String :=
       "nameC: " ++ diagSim (sysOrig G) (sysName H true) a0 (initName H st.htop true) f,
       "regionC: " ++ diagSim (sysOrig G) (sysRegion H true) a0 (initRegion H st.htop true) f])
   | ["ECHO"] => (st, printHier st.h)
+  | ["SPEC", "insert_block", c, new, ps, ss] =>
+    (st, bit (Model.insertSpecOK st.g st.h c new (lst ps) (lst ss)))
+  | ["SPEC", "insert_ctl", c, new, ps, ss] =>
+    (st, bit (Model.insertCtlSpecOK st.g st.h c new (lst ps) (lst ss)))
+  | ["SPEC", "join_returns", c] => (st, bit (Model.joinReturnsSpecOK st.g st.h c))
+  | ["S", h, ng] => match parseHier h, parseNg ng with
+    | .ok hh, .ok n => ({ st with m := { H := hh, ng := n } }, "ok")
+    | .error e, _ => (st, s!"parse-error {e}")
+    | _, .error e => (st, s!"parse-error {e}")
+  | ["OP", "insert_block", c, kind, new, ps, ss] => match BKind.ofString? kind with
+    | none => (st, "bad-request")
+    | some k => reply st ((Model.insertBlock st.m.H c k new (lst ps) (lst ss)).map
+        fun H => { st.m with H := H })
+  | ["OP", "insert_ctl", c, new, ps, ss] => reply st (Model.insertCtl st.m c new (lst ps) (lst ss))
+  | ["OP", "join_returns", c] => reply st (Model.joinReturns st.m c)
+  | ["OP", "join_tails_exits", c, ts, es] =>
+    match Model.joinTailsExits st.m c (lst ts) (lst es) with
+    | .ok (m, t, e) => reply st (.ok m) s!" {t} {e}"
+    | .error a => (st, s!"abort {a.toString}")
   | _ => (st, "bad-request")
 
 partial def loop (h : IO.FS.Stream) (out : IO.FS.Stream) (st : DState) : IO Unit := do
